@@ -598,6 +598,7 @@ func (c *client) prepareResultChannels(
 	if startsWriteLoop {
 		c.wg.Add(1)
 	}
+	vh("c.register", "run", stepData.RunID, "dup", false, "starts", !c.readLoopRunning, "n", len(c.runningStepResultEntries))
 	// Run the loop if it isn't running.
 	if !c.readLoopRunning {
 		// Only a single read loop should be running
@@ -608,7 +609,6 @@ func (c *client) prepareResultChannels(
 			c.executeReadLoop(cborReader)
 		}()
 	}
-	vh("c.register", "run", stepData.RunID, "dup", false, "loop", c.readLoopRunning, "n", len(c.runningStepResultEntries))
 	return nil
 }
 
